@@ -2,6 +2,7 @@ CONSTANTS
   Positions = {"lis_ctx", "lis_set", "clu", "cm", "ext", "sf", "sfa", "exta"}
   Endpoints = {"full", "mosnconfig", "allrouters", "allclusters", "alllisteners", "router", "cluster", "listener"}
   MaxOps = 0
+  KeyForms = {"pem", "lead_ws", "preamble", "trailing", "crlf", "two_blocks", "path"}
   ArrayLen = 3
   Defects = {}
 SPECIFICATION TraceSpec
